@@ -638,7 +638,10 @@ func (x *protoExec) await() string {
 	deadline := time.Now().Add(40 * time.Second)
 	for {
 		s := x.e.Wallets()
-		if !strings.Contains(s, "importing") && !strings.Contains(s, "removing") {
+		// "err": Wallets() joins the committed status table with the keystore manager's volatile map; while
+		// the final removal transaction is between DeleteKeystore and its commit the join fails transiently.
+		// Not an outcome of the awaited task: keep polling.
+		if s != "err" && !strings.Contains(s, "importing") && !strings.Contains(s, "removing") {
 			return s
 		}
 		if time.Now().After(deadline) {
